@@ -15,7 +15,8 @@ class Spec(c01.Spec):
     families = [{'label': 'well-formed', 'family': 'well'},
                 {'label': 'malformed-returns', 'family': 'malformed'},
                 {'label': 'unmergeable-updates', 'family': 'unmergeable'},
-                {'label': 'tasks-calling-sys-exit', 'family': 'exiting'}]
+                {'label': 'tasks-calling-sys-exit', 'family': 'exiting'},
+                {'label': 'tasks-echoing-their-entry', 'family': 'echo'}]
     rule = c01.Spec.rule + ('; the final status map and the per-task '
                             'execution counters are compared with a '
                             'sequential reference model of the graph')
